@@ -327,7 +327,7 @@ theorem huge_diag (fs : Files) (n : Nat) (hn : n = 70000) :
     rw [List.all_eq_true]
     intro x hx
     rw [List.eq_of_mem_replicate hx, g1]; rfl
-  rw [assemble_eq_from hp (expand_noinclude fs 63 [] _ hall)]
+  rw [assemble_eq_from hp (expand_noinclude fs fs.length [] _ hall)]
   unfold assembleFrom
   have h0 : buildSymTab (List.replicate n org0 ++ tail0) 0 [] = some hugeTab := by
     rw [buildSymTab_replicate g3, Nat.zero_add, hn]; exact hugeTab_spec
